@@ -140,19 +140,15 @@ func GetDocCommentOn(file *ast.File, obj types.Object) (cg *ast.CommentGroup, cl
 				}
 			}
 		case *ast.Field:
-			if n.Doc != nil {
-				return n.Doc, func() {
-					if len(n.Doc.List) == 0 {
-						n.Doc = nil
-					}
-				}
+			// A method or struct field owns the comment right above it and
+			// nothing else: never the doc of the enclosing type declaration
+			// or the file's package doc.
+			if n.Doc == nil {
+				return nil, func() {}
 			}
-		case *ast.File:
-			if n.Doc != nil {
-				return n.Doc, func() {
-					if len(n.Doc.List) == 0 {
-						n.Doc = nil
-					}
+			return n.Doc, func() {
+				if len(n.Doc.List) == 0 {
+					n.Doc = nil
 				}
 			}
 		}
